@@ -25,6 +25,22 @@ def describe(ck):
     ck.not_decided += ["equality of the re-read alignment (parser semantics over all names and widths)"]
 
 
+def _printf_like(prog, call, argnode):
+    """the literal is the format of a private formatting helper of the writers: the callee is defined outside the logging
+    module and hands the parameter that receives the literal to a v*printf / *printf call as the format"""
+    H = prog.functions.get(call.callee) if call.callee else None
+    if H is None or H.body is None or H.file.endswith("tldevel.c"):
+        return False
+    idx = next((i for i, a in enumerate(call.args) if argnode.within(a) or a is argnode), None)
+    if idx is None or idx >= len(H.params):
+        return False
+    did = H.params[idx]["did"]
+    for c in H.body.calls("vsnprintf", "vfprintf", "vsprintf", "vprintf", "snprintf", "fprintf", "sprintf"):
+        if any(a.strip(casts=True).k == "DeclRefExpr" and a.strip(casts=True).d.get("did") == did for a in c.args):
+            return True
+    return False
+
+
 def writer_literals(prog, cg):
     """format constant -> (writer function, all string literals reachable from it)"""
     K = prog.fn("kalign_write_msa")
@@ -49,7 +65,8 @@ def writer_literals(prog, cg):
             for l in G.body.find("StringLiteral"):
                 # only literals that reach the output: arguments of printf-family / stores into line buffers
                 p, ch = l.up(casts=True)
-                if p is not None and p.k == "CallExpr" and p.callee in ("fprintf", "snprintf", "sprintf", "printf", "fputs"):
+                if p is not None and p.k == "CallExpr" and (p.callee in ("fprintf", "snprintf", "sprintf", "printf", "fputs")
+                                                            or _printf_like(prog, p, ch)):
                     lits.append(l.d.get("s", ""))
         out[fm[0]] = (W, lits)
     if set(out) != set(FORMATS):
